@@ -554,7 +554,21 @@ fn replace_at(root: &Value, path: &[PathSeg], new: Value) -> Value {
     go(root, path, new)
 }
 
+thread_local! {
+    /// set while the shrinker evaluates candidates: a check may skip an expensive confirmation phase there (the verdict
+    /// on the scenario as found, and on the minimised scenario afterwards, is always the full one)
+    pub static SHRINKING: std::cell::Cell<bool> = const { std::cell::Cell::new(false) };
+}
+
 pub fn shrink(check: &dyn Erased, sc: Value, rule: &str, max_exec: usize) -> (Value, usize) {
+    struct Reset;
+    impl Drop for Reset {
+        fn drop(&mut self) {
+            SHRINKING.with(|s| s.set(false));
+        }
+    }
+    SHRINKING.with(|s| s.set(true));
+    let _reset = Reset;
     let mut cur = sc;
     let mut execs = 0usize;
     loop {
